@@ -940,11 +940,14 @@ func NewShelleyBlockFromCbor(
 		return nil, fmt.Errorf("decode Shelley block error: %w", err)
 	}
 
+	// A block without a header cannot be used, whether or not the body
+	// hash is validated
+	if shelleyBlock.BlockHeader == nil {
+		return nil, errors.New("shelley block header is nil")
+	}
+
 	// Validate body hash during parsing if not skipped
 	if !cfg.SkipBodyHashValidation {
-		if shelleyBlock.BlockHeader == nil {
-			return nil, errors.New("shelley block header is nil")
-		}
 		if err := common.ValidateBlockBodyHash(
 			data,
 			shelleyBlock.BlockHeader.BlockBodyHash(),
